@@ -1356,3 +1356,121 @@ package nbs
 //@   at call (*NomsBlockStore).getManyCompressed: assert (arg0:*NomsBlockStore == gcs.oldGen && verif_samemap(arg2:hash.HashSet, hashes) && verif_ghost.gCopyPrev == nil) || (arg0:*NomsBlockStore == gcs.newGen && verif_ghost.gCopyPrev != nil && verif_samemap(arg2:hash.HashSet, verif_ghost.gCopyPrev) && verif_samemap(verif_ghost.gCopySrc, verif_ghost.gCopyPrev))
 //@   at call (GhostBlockStore).getManyCompressed: assert verif_ghost.gCopyPrev != nil && verif_samemap(arg2:hash.HashSet, verif_ghost.gCopyLast)
 //@   also_modifies verif_ghost.gCopyLast, verif_ghost.gCopyPrev, verif_ghost.gCopySrc
+
+// ---- the memory-mapped archive index: the same search over entries read through the mapping (C01, C10)
+
+//@ func verif_mmPfx
+//@   pure
+//@   opaque
+// getPrefix reads the mapped file through file.MmapData (outside the subset): what it returns for an entry is, by
+// definition, verif_mmPfx of that entry
+//@ func (*mmapIndexReader).getPrefix
+//@   property C01
+//@   trusted definitional: the value read from the mapping is what verif_mmPfx names
+//@   modifies nothing
+//@   ensures result == verif_mmPfx(m, idx)
+
+// searchPrefix (the twin of prollyBinSearch over the mapping, with 32-bit indices): never panics, terminates, and
+// returns the lower bound of |target| among the mapped prefixes, for every index with fewer than 2^31 entries
+//@ func (*mmapIndexReader).searchPrefix
+//@   property C01 C10
+//@   nopanic
+//@   requires m != nil && m.chunkCount < 1<<31
+//@   requires 0 <= verif_ghost.tGI && verif_ghost.tGI < int(m.chunkCount) ==> forall t in 0..int(m.chunkCount): (t <= verif_ghost.tGI ==> verif_mmPfx(m, uint32(t)) <= verif_mmPfx(m, uint32(verif_ghost.tGI))) && (t >= verif_ghost.tGI ==> verif_mmPfx(m, uint32(t)) >= verif_mmPfx(m, uint32(verif_ghost.tGI)))
+//@   modifies nothing
+//@   ensures  0 <= result && uint32(result) <= m.chunkCount
+//@   ensures  0 <= verif_ghost.tGI && verif_ghost.tGI < int(result) ==> verif_mmPfx(m, uint32(verif_ghost.tGI)) < target
+//@   ensures  int(result) <= verif_ghost.tGI && verif_ghost.tGI < int(m.chunkCount) ==> verif_mmPfx(m, uint32(verif_ghost.tGI)) >= target
+//@   ensures  uint32(result) < m.chunkCount ==> verif_mmPfx(m, uint32(result)) >= target
+//@   ensures  result > 0 ==> verif_mmPfx(m, uint32(result)-1) < target
+//@   loop 1
+//@     invariant items == int32(m.chunkCount) && 0 <= lft && lft <= rht && rht <= items && items > 0
+//@     invariant lo < target && target <= hi
+//@     invariant lft < items ==> lo == verif_mmPfx(m, uint32(lft))
+//@     invariant (rht == items && hi == verif_mmPfx(m, uint32(items-1))) || (rht < items && hi == verif_mmPfx(m, uint32(rht)))
+//@     invariant 0 <= verif_ghost.tGI && verif_ghost.tGI < int(lft) ==> verif_mmPfx(m, uint32(verif_ghost.tGI)) < target
+//@     invariant int(rht) <= verif_ghost.tGI && verif_ghost.tGI < int(items) && rht < items ==> verif_mmPfx(m, uint32(verif_ghost.tGI)) >= target
+//@     invariant lft > 0 ==> verif_mmPfx(m, uint32(lft-1)) < target
+//@     decreases rht - lft
+
+// GenerationalNBS.Has: each generation is asked about the caller's address, a later one only when every earlier one
+// said no; "absent" is answered only after both generations (and the ghost generation, when there is one) said no
+//@ func (*NomsBlockStore).Has
+//@   property C01
+//@   trusted event marker: the answer comes from the memtable / table / journal / archive lookups, which are under their own contracts
+//@   modifies nothing
+//@   ghost_set verif_ghost.gHasCount = verif_ghost.gHasCount + 1
+//@   ghost_set verif_ghost.gHasLast = result0
+//@   ghost_set verif_ghost.gHasLastStore = nbs
+//@ func (GhostBlockStore).Has
+//@   property C01
+//@   trusted event marker
+//@   modifies nothing
+//@   ghost_set verif_ghost.gHasCount = verif_ghost.gHasCount + 1
+//@   ghost_set verif_ghost.gHasLast = result0
+//@   ghost_set verif_ghost.gHasGhost = true
+//@ func (*GenerationalNBS).Has
+//@   property C01
+//@   requires gcs != nil && gcs.newGen != nil && gcs.oldGen != nil && gcs.newGen != gcs.oldGen
+//@   requires verif_ghost.gHasCount == 0 && verif_ghost.gHasLastStore == nil && !verif_ghost.gHasGhost
+//@   at call (*NomsBlockStore).Has: assert (arg0:*NomsBlockStore == gcs.newGen || arg0:*NomsBlockStore == gcs.oldGen) && arg0:*NomsBlockStore != verif_ghost.gHasLastStore && arg2:hash.Hash == h
+//@   at call (*NomsBlockStore).Has: assert verif_ghost.gHasCount == 0 || !verif_ghost.gHasLast
+//@   at call (GhostBlockStore).Has: assert verif_ghost.gHasCount == 2 && !verif_ghost.gHasLast && arg2:hash.Hash == h
+//@   ensures  result1 == nil ==> verif_ghost.gHasCount > 0 && result0 == verif_ghost.gHasLast
+//@   ensures  result1 == nil && !result0 ==> verif_ghost.gHasCount >= 2 && (gcs.ghostGen == nil || verif_ghost.gHasGhost)
+//@   also_modifies verif_ghost.gHasCount, verif_ghost.gHasLast, verif_ghost.gHasLastStore, verif_ghost.gHasGhost
+
+// ---- presence checks against the chunk journal (C01)
+
+//@ func verif_jhas
+//@   pure
+//@   opaque
+// hasAddr looks the address up in the journal's range index (Go maps): what it answers is, by definition, verif_jhas
+//@ func (*journalWriter).hasAddr
+//@   property C01
+//@   trusted definitional: the range index is a pair of Go maps
+//@   modifies nothing
+//@   ensures result == verif_jhas(wr, h)
+
+// hasMany: on a normal return a request is marked present exactly if it already was or the journal holds its
+// address, and "something is missing" is reported exactly if the journal lacks one of the requested addresses
+//@ func (journalChunkSource).hasMany
+//@   property C01
+//@   requires s.journal != nil
+//@   requires forall k in 0..len(addrs): addrs[k].a != nil
+//@   ensures  result2 == nil && result1 == gcBehavior_Continue ==> forall k in 0..len(addrs): addrs[k].has == (old(addrs[k].has) || verif_jhas(s.journal, *addrs[k].a))
+//@   ensures  result2 == nil && result1 == gcBehavior_Continue ==> forall k in 0..len(addrs): !verif_jhas(s.journal, *addrs[k].a) ==> result0
+//@   ensures  result2 == nil && result1 == gcBehavior_Continue && result0 ==> exists k in 0..len(addrs): !verif_jhas(s.journal, *addrs[k].a)
+//@   loop 1
+//@     invariant 0 <= rangeidx && rangeidx <= len(addrs) && s.journal != nil
+//@     invariant forall k in 0..rangeidx: addrs[k].has == (old(addrs[k].has) || verif_jhas(s.journal, *addrs[k].a))
+//@     invariant forall k in rangeidx..len(addrs): addrs[k].has == old(addrs[k].has)
+//@     invariant forall k in 0..rangeidx: !verif_jhas(s.journal, *addrs[k].a) ==> missing
+//@     invariant missing ==> exists k in 0..rangeidx: !verif_jhas(s.journal, *addrs[k].a)
+
+// ---- presence checks against an archive (C01)
+
+//@ func verif_arHas
+//@   pure
+//@   opaque
+//@ func (*archiveReader).has
+//@   property C01
+//@   trusted definitional: has(h) is findIndex(h) >= 0, and findIndex is verified above; this names its answer
+//@   modifies nothing
+//@   ensures result == verif_arHas(ar, hash)
+
+// hasMany: on a normal return a request is marked present exactly if it already was or the archive holds its address,
+// and "something is missing" is reported exactly if some request that was not yet present is not in the archive
+//@ func (*archiveChunkSource).hasMany
+//@   property C01
+//@   requires acs != nil
+//@   requires forall k in 0..len(records): records[k].a != nil
+//@   ensures  result2 == nil && result1 == gcBehavior_Continue ==> forall k in 0..len(records): records[k].has == (old(records[k].has) || verif_arHas(&acs.aRdr, *records[k].a))
+//@   ensures  result2 == nil && result1 == gcBehavior_Continue ==> forall k in 0..len(records): !old(records[k].has) && !verif_arHas(&acs.aRdr, *records[k].a) ==> result0
+//@   ensures  result2 == nil && result1 == gcBehavior_Continue && result0 ==> exists k in 0..len(records): !old(records[k].has) && !verif_arHas(&acs.aRdr, *records[k].a)
+//@   loop 1
+//@     invariant 0 <= rangeidx && rangeidx <= len(records) && acs != nil
+//@     invariant forall k in 0..rangeidx: records[k].has == (old(records[k].has) || verif_arHas(&acs.aRdr, *records[k].a))
+//@     invariant forall k in rangeidx..len(records): records[k].has == old(records[k].has)
+//@     invariant forall k in 0..rangeidx: !old(records[k].has) && !verif_arHas(&acs.aRdr, *records[k].a) ==> !foundAll
+//@     invariant !foundAll ==> exists k in 0..rangeidx: !old(records[k].has) && !verif_arHas(&acs.aRdr, *records[k].a)
